@@ -158,7 +158,8 @@ def judge_set(ctx, kind, prop, value, via):
         if prop == "allowed_characters":
             want = sorted(want, key=repr)
         if prop == "encoding":
-            if str(got).lower() != str(want).lower():
+            # (blanks around a cell of the CID are no part of the name)
+            if str(got).lower().strip() != str(want).lower().strip():
                 ctx.violation("C11:wrong-internal-value:%s" % prop, case, "property holds another value than the spelling denotes", expected=want, observed=got)
         elif got != want:
             ctx.violation("C11:wrong-internal-value:%s" % prop, case, "property holds another value than the spelling denotes", expected=want, observed=got)
